@@ -271,6 +271,13 @@ def interpret(case, observer=None):
             if case["kind"].startswith(("hash", "aws")) and call["op"]["op"] in HASH_UNSUPPORTED:
                 out = ("skipped", None)       # HashClient does not offer this operation
                 env.ncalls += 1
+            elif call.get("ambient"):
+                # the application makes this call while it is handling an exception of its own (inside an except block, a
+                # finally block, an __exit__): sys.exc_info() is not empty although nothing has gone wrong in the library
+                try:
+                    raise LookupError("the caller's own exception, being handled while the call is made")
+                except LookupError:
+                    out = env.call(ops.invoke, c, call["op"])
             else:
                 out = env.call(ops.invoke, c, call["op"])
             run.outcomes.append(out)
